@@ -104,6 +104,39 @@ CLAIMED = {
    text='Static rules over the SSA form of /repo decide, for every path and every input at once, that (R1) each of the unsigned gas subtractions is dominated by guards entailing minuend >= subtrahend, (R2) every store to VMOutput.GasRemaining is non-inflating by provenance, (R3) gas put into an OutputTransfer is moved out of GasRemaining and never refilled, (R4) no unbounded decoded count enters gas arithmetic. Together these are a provenance argument for GasRemaining + forwarded gas <= GasProvided; the numeric amount consumed is not decided, hence level other rather than proof.',
    note='Trusted: go/types + go/ssa (x/tools v0.29.0); axioms A-cost (prices non-zero < 2^32) and A-argbytes (argument bytes and count < 2^31) so that size*price sums do not wrap; dependencies do not touch VMOutput.'),
 }
+
+# Round-5 and audit additions (appended to the technique / text of each property; see DESIGN.md §12.4, §12.5)
+EXTRA = {
+ 'C01': ('; destination-only error exits classified by what decides them (shared with C10-R5)',
+         ' Also claimed: the destination side of a transfer refuses nothing the sender side ships (no destination-only rejection decided by the content of a forwarded argument), since a shipped token that is refused is debited and never credited.'),
+ 'C02': ('; hand-over with several counter reads / resets in branches (happens-before of reset and read at the first level where the call chains part)',
+         ' The counter value installed or shipped at a hand-over must come from a read that cannot follow the reset.'),
+ 'C04': ('; value obligation on the frozen flag stored below ESDTFreeze / ESDTUnFreeze (the function\'s own flag, not a toggle)',
+         ' Below ESDTFreeze / ESDTUnFreeze the stored flag is the function\'s own freeze constant (a flip of the stored bit is reported).'),
+ 'C07': ('; stale-read rule (no counter read used for the new holder or the message may follow the reset); must-pass-through of a set of sites per level (resets / removals placed in branches); same-shard install under the shard-equality assumption; role operations attributed to the account at the deepest level that performs and saves them',
+         ' The hand-over rules hold for any number of reads and for resets placed in separate branches; with the new holder in the same shard, counter write and role addition lie on every successful path.'),
+ 'C10': ('; presence obligation: under len(args) > p every successful parser path stores CallFunction read from position p (per call level); who-may-encode rule for unsigned 64-bit quantities (no signed big.Int constructor); destination-only rejections for the multi transfer incl. tests outside the fact language',
+         ' The parser reports the attached function exactly when its argument is there (the mirror of the ledger\'s len(Arguments) > min test); no nonce or quantity is encoded through a signed constructor; the multi transfer\'s destination side refuses no shipped list for its content.'),
+ 'C12': ('; provenance of the split subject through helpers (only the leading-separator trim may precede the split)',
+         ' The string handed to the tokenizer is the input itself, or the input with leading separators removed: a trailing separator encodes an empty last argument.'),
+ 'C13': ('; field-sensitive flow through locally built objects; table of read-only foreign callees, all other foreign callees handed input-derived memory count as writers (bytes.NewBuffer, append on a derived slice)',
+         ''),
+ 'C14': ('; per decoder case the set of message fields touched (exactly the field of the tag); interval obligation for the amount writer (every write lies below the length returned on each reachable path, through length helpers and tuple tail calls); freshness of every *big.Int the amount reader returns',
+         ' Each decoder case reads and writes only its own field (no field is built on another one\'s storage); the amount writer touches only the bytes it reports (the marshaller fills the buffer back to front); every decoded amount is a newly allocated object.'),
+ 'C15': ('; forward-loop removal rule (shared with C03-R7); load-modify-save pairing generalised to every loaded account (modification followed by SaveAccount on every path to success)',
+         ' A role removal skips no list element; an account that is loaded and modified is saved after the last modification on every successful path.'),
+ 'C16': ('; decoder discovery by effect (reaches the map decoder) in both forms (returns the schedule / fills the object handed in) with validation followed through helpers; freshness of every decode target below GasScheduleChange; priced-range cover of stored arguments; moved-not-copied for forwarded gas (shared with C06-R3)',
+         ' A new schedule is decoded into a zero-valued fresh object (decoding over the live schedule or a copy of it would let a partial schedule pass the zero test); the store price covers every stored argument; forwarded gas is what remains after all charges.'),
+ 'C18': ('; loop rule for the key listing (every key read is appended before the next iteration or a return)',
+         ' The container\'s key listing reports every registered name, independent of activation.'),
+ 'C19': ('; guarded-field discovery from writes under either lock mode (a write under the read lock is a violation); fresh-object rule for repricing (shared with C16-R3)',
+         ' A repricing hands every function one complete, freshly decoded schedule object; a field written while the lock is held in any mode must be written under the write lock.'),
+ 'C20': ('; flag writers that assign instead of OR-ing are judged by happens-before of writes to the same byte; shape rule for the merged transfer list (append base is the own list, tail starts at the own length)',
+         ' Flags that share a byte are OR-ed (an assignment that may follow another write of the byte loses that flag); the merged transfer list is the own list followed by the tail of the merged-in list from the own length on.'),
+}
+for pid, (t, x) in EXTRA.items():
+    CLAIMED[pid]['technique'] += t
+    CLAIMED[pid]['text'] += x
 NA = {}
 for i in range(1, 21):
     pid = 'C%02d' % i
